@@ -12,7 +12,8 @@ Decided here is *per-rank protocol conformance* against an explicit ghost model 
       every worker rank gets EndOfQueue exactly once and nothing after it, and on return all workers are DONE
   for every world size, every set of active ranks and every choice of the matching worker at each wildcard receive.
   Collectives: a function is executed once as root and once as worker and the sequences of collectives must be equal.
-Not decided: progress/fairness, real MPI, overtaking between different senders at the writer's wildcard receive (F22).
+Not decided: progress/fairness, real MPI.  (F22 - the writer stopping at the reader's end marker while messages of other senders
+were pending - was found here, demonstrated in the simulation and repaired; the writer unit now proves the per-sender argument.)
 A bounded stand-in runs the real functions on simulated ranks (threads, rendezvous channels) for small worlds.
 """
 from __future__ import annotations
@@ -35,7 +36,8 @@ EXPLANATION = (
     "simulation of small worlds with rendezvous channels runs the real functions.")
 TRUSTED = ["MPI point-to-point semantics: a matching send/recv pair completes; messages between one pair of ranks on one tag do not overtake",
            "the job function terminates", "every rank calls iter_unordered (collective entry)"]
-NOT_DECIDED = ["global deadlock freedom / progress beyond the rely-guarantee argument", "overtaking between different senders at the writer's wildcard receive (F22)",
+NOT_DECIDED = ["global deadlock freedom / progress beyond the rely-guarantee argument",
+               "MPI write_patches role dispatch, WorkerManager/Split, the root-only reads followed by bcast in load_patches / get_probe / from_file (bounded simulation only)",
                "real MPI (mpi4py is not installed): point-to-point semantics are a model", "result equality with the single-process run beyond the dispatcher (C05 covers the arrival order)"]
 ASSUMPTIONS = []
 
